@@ -45,3 +45,76 @@ Lemma cnt_memN c l : cnt c l = 0%nat <-> memN c l = false.
 Proof. unfold cnt. rewrite memN_false. induction l as [|a r IH]; cbn; [tauto|]. destruct (N.eqb_spec c a) as [->|Hn]; cbn.
   - split; [discriminate|intros H; exfalso; apply H; auto].
   - rewrite IH. split; [intros H [E|E]; [congruence|auto] | auto]. Qed.
+
+(* ---------- one entry of the pinset, removal of peer f ---------- *)
+Definition typed_ok (f : N) (st : pinset) : Prop :=
+  forall c x, aget c st = Some x -> In f (p_allocs x) -> p_ty x <> MetaT -> check_pin_type (set_allocs [] x) = true.
+Definition no_update (st : pinset) : Prop := forall c x, aget c st = Some x -> ~ is_update x.
+
+(* the per-entry test of repin_bad, named *)
+Definition entry_okb (now : Z) (rv : bool) (ms : list metric) (all_trusted all_eligible : bool) (f : N)
+           (st0 stF : pinset) (steps : list C10_Check.astep) (c : N) (x : pin) : bool :=
+  let nlog := loggers c steps in
+  if negb (memN f (p_allocs x)) then entry_same st0 stF c && Nat.eqb nlog 0
+  else
+    let o := p_opts x in
+    let i := mk_input (o_rmin o) (o_rmax o) (p_allocs x) ms [f] [] rv in
+    let hcount := healthy_count now i (p_allocs x) in
+    (if all_trusted then Nat.leb nlog 1 else true)
+    && forallb (fun s => Nat.leb (count_occ_N c (step_logs s)) 1) steps
+    && (if negb ((0 <? o_rmin o) && (o_rmin o <=? o_rmax o)) || expired_at now x || ptype_eqb (p_ty x) MetaT
+           || negb (nodupb (p_allocs x)) then true
+        else if (o_rmin o <=? hcount) then (if hcount <=? o_rmax o then entry_same st0 stF c else true)
+        else if reachable now i <? o_rmin o then entry_same st0 stF c
+        else if negb all_eligible then true
+        else match aget c stF with
+             | None => false
+             | Some y =>
+                 negb (memN f (p_allocs y))
+                 && C03_Check.spec_okb now i (ObsOk (p_allocs y))
+                 && opts_eqb (p_opts y) o
+                 && ptype_eqb (p_ty y) (p_ty x) && (p_depth y =? p_depth x) && optN_eqb (p_ref y) (p_ref x)
+                 && Nat.eqb nlog 1
+             end).
+
+Lemma flat_map_nil_intro {A B} (g : A -> list B) l : (forall x, In x l -> g x = []) -> flat_map g l = [].
+Proof. induction l as [|a r IH]; intros H; [reflexivity|]. cbn. rewrite (H a (or_introl eq_refl)), IH; auto. intros y Hy. apply H. now right. Qed.
+
+Lemma repin_bad_entries now rv ms at_ ae f st0 stF steps :
+  (forall c x, In (c, x) st0 -> entry_okb now rv ms at_ ae f st0 stF steps c x = true) -> repin_bad now rv ms at_ ae f st0 stF steps = [].
+Proof. intros H. unfold repin_bad. apply flat_map_nil_intro. intros [c x] Hin. cbv zeta. cbn [fst snd].
+  specialize (H c x Hin). unfold entry_okb in H. cbv zeta in H. rewrite H. reflexivity. Qed.
+
+Section VacEntry.
+Variables (dmin dmax : Z) (rv : bool) (ms : list metric) (ls : list (N * list N)) (f self : N) (fol norep : bool)
+          (ord : N -> list N -> list N) (lord : list pin -> list pin) (st0 : pinset).
+Let e := mk_env 0 ms [] ls.
+Let pc := mk_pcfg (mk_cfg dmin dmax fol rv) norep.
+Let st' := fst (vacate pc e ord lord st0 f).
+Let logs := snd (vacate pc e ord lord st0 f).
+Let steps : list C10_Check.astep := [(self, fol, norep, false, logs, map snd st')].
+Hypothesis Hinv : inv st0.
+Hypothesis Hmeta : meta_ok st0.
+Hypothesis Hnu : no_update st0.
+Hypothesis Htyped : typed_ok f st0.
+Hypothesis Hlord : list_oracle lord.
+Hypothesis Hord : map_oracle ord.
+Hypothesis Hms : NoDup (map mpeer ms).
+
+Lemma vac_loggers c : loggers c steps = if memN c logs then 1%nat else 0%nat.
+Proof. unfold loggers, steps. cbn [filter fst snd]. destruct (memN c logs); reflexivity. Qed.
+
+Lemma vac_idle : fol || norep = true -> st' = st0 /\ logs = [].
+Proof. intros H. unfold st', logs. rewrite (vacate_idle_l pc e ord lord st0 f); auto.
+  unfold pc. cbn. apply orb_true_iff in H. destruct H; auto. Qed.
+
+Lemma vac_entry_idle at_ c x : fol || norep = true -> In (c, x) st0 -> entry_okb 0 rv ms at_ false f st0 st' steps c x = true.
+Proof. intros Hi Hin. destruct (vac_idle Hi) as [Es El]. destruct Hinv as [Nd K].
+  assert (G : aget c st0 = Some x) by now apply in_aget.
+  assert (Es0 : entry_same st0 st' c = true) by (rewrite Es; apply (entry_same_refl st0 st0 c x G G (Hmeta c x G))).
+  unfold entry_okb. cbv zeta. rewrite vac_loggers, El. cbn [memN existsb]. rewrite Es0.
+  destruct (memN f (p_allocs x)); cbn [negb andb]; [|reflexivity].
+  unfold steps. cbn [forallb step_logs snd fst]. rewrite El. cbn [count_occ_N filter length Nat.leb andb].
+  destruct at_; cbn [Nat.leb andb];
+    repeat match goal with |- context [if ?b then _ else _] => destruct b end; reflexivity. Qed.
+End VacEntry.
